@@ -1,9 +1,150 @@
+/-
+  Line-protocol driver for the zip model (prefix `zip.`).  Decode, call the model, encode.
+  File token:   <path>:<mode r|d|s|i|e>:<size>:<content>:<g 0|1>     (hex path/content)
+  Entry token:  <name>:<declared size>:<content>
+  The executable environment plugs module.CheckFilePath / module.Check / CanonicalVersion from the
+  module and semver models and `strToFold` over the committed fold table.
+-/
 import ModVerif.Drv.Util
+import ModVerif.Model.Zip
+import ModVerif.Model.Module
+import ModVerif.Basic.UnicodeLetter
 namespace ModVerif.Drv.Zip
-open ModVerif ModVerif.Drv
+open ModVerif ModVerif.Drv ModVerif.Zip
 
-/-- stub: no ops modelled yet -/
+def realEnv : Env where
+  cfp p := match Module.checkFilePath UnicodeLetter.isLetter p with
+    | .ok _ => true
+    | .error _ => false
+  toFold := strToFold
+  modOK p v := Semver.canonicalVersion v == v &&
+    (match Module.check p v with
+     | .ok _ => true
+     | .error _ => false)
+
+def parseMode : String → Option Mode
+  | "r" => some .regular
+  | "d" => some .dir
+  | "s" => some .symlink
+  | "i" => some .irregular
+  | "e" => some .lstatErr
+  | _ => none
+
+def parseFile (tok : String) : Option FileInfo :=
+  match tok.splitOn ":" with
+  | [p, m, sz, c, g] => do
+    let p ← hx p
+    let m ← parseMode m
+    let sz ← sz.toInt?
+    let c ← hx c
+    let g ← (if g == "1" then some true else if g == "0" then some false else none)
+    pure ⟨p, m, sz, c, g⟩
+  | _ => none
+
+def parseFiles (s : String) : Option (List FileInfo) :=
+  if s == "_" then some [] else (s.splitOn ",").mapM parseFile
+
+def parseEntry (tok : String) : Option Entry :=
+  match tok.splitOn ":" with
+  | [n, sz, c] => do
+    let n ← hx n
+    let sz ← sz.toNat?
+    let c ← hx c
+    pure ⟨n, sz, c⟩
+  | _ => none
+
+def parseEntries (s : String) : Option (List Entry) :=
+  if s == "_" then some [] else (s.splitOn ",").mapM parseEntry
+
+def nodeOfFile (f : FileInfo) : Bytes × Node :=
+  (f.path, if f.mode == .dir then .dir [] else .file f.mode f.size f.content f.goGe124)
+
+def parseTarget : String → Option Target
+  | "m" => some .missing
+  | "e" => some .emptyDir
+  | "n" => some .nonEmptyDir
+  | "f" => some .notDir
+  | _ => none
+
+def reasonStr : Reason → String
+  | .notClean => "notclean" | .notRelative => "notrelative" | .vendored => "vendored"
+  | .submoduleFile => "submodulefile" | .hgArchival => "hgarchival" | .filePath => "filepath"
+  | .goModCase => "gomodcase" | .lstat => "lstat" | .caseCollision => "casecollision"
+  | .fileAndDir => "fileanddir" | .multiple => "multiple" | .symlink => "symlink"
+  | .notRegular => "notregular" | .goModSize => "gomodsize" | .licenseSize => "licensesize"
+  | .vcs => "vcs" | .submoduleDir => "submoduledir" | .noPrefix => "noprefix"
+  | .goModNotRoot => "gomodnotroot" | .panic => "panic"
+
+def showErrs (l : List (Bytes × Reason)) : String :=
+  if l.isEmpty then "_" else ",".intercalate (l.map fun e => xh e.1 ++ ":" ++ reasonStr e.2)
+
+def showCf (cf : CheckedFiles) : String :=
+  let e := match cf.err with
+    | none => "none"
+    | some .size => "size"
+    | some .invalid => "invalid"
+  s!"valid={xhList cf.valid} omitted={showErrs cf.omitted} invalid={showErrs cf.invalid} sizeerr={showBool cf.sizeError} err={e}"
+
+def createErrStr : CreateErr → String
+  | .badModule => "err:badmodule" | .size => "err:size" | .invalid => "err:invalid"
+  | .contentLarger => "err:contentlarger" | .nameTooLong => "err:nametoolong"
+
+def showEntries (es : List Entry) : String :=
+  if es.isEmpty then "_" else ",".intercalate (es.map fun e => xh e.name ++ "=" ++ xh e.content)
+
+def showCreate : Except CreateErr (List Entry) → String
+  | .ok es => "ok " ++ showEntries es
+  | .error e => createErrStr e
+
+def unzipErrStr : Option UnzipErr → String
+  | none => "ok"
+  | some .notEmpty => "err:notempty" | some .badModule => "err:badmodule" | some .size => "err:size"
+  | some .invalid => "err:invalid" | some .mkdir => "err:mkdir" | some .exists => "err:exists"
+  | some .contentSize => "err:contentsize"
+
+/-- driver's abstract target directory -/
+def tdir : Bytes := [116]
+
+/-- path relative to the target directory (`.` for the target itself); anything else is printed
+    with a `!` so that an escape shows up as a disagreement. -/
+def relTo (p : Bytes) : String :=
+  if p == tdir then "." else
+  if isPrefixOfB (tdir ++ [47]) p then xh (p.drop 2) else "!" ++ xh p
+
+def sortStrs (l : List String) : List String := (l.mergeSort (fun a b => a ≤ b)).eraseDups
+
+def showStrs (l : List String) : String := if l.isEmpty then "_" else ",".intercalate l
+
+def showUnzip (t : Target) (r : UnzipResult) : String :=
+  let files := sortStrs ((createdFiles r.effects).map relTo)
+  let dirs := sortStrs (((createdDirs r.effects).filter (fun d => d != tdir || t == .missing)).map relTo)
+  s!"{unzipErrStr r.err} files={showStrs files} dirs={showStrs dirs}"
+
 def handle : Handler
+  | "pathclean", [a] => do let a ← hx a; pure (xh (PathClean.pathClean a))
+  | "pathdir", [a] => do let a ← hx a; pure (xh (PathClean.pathDir a))
+  | "pathbase", [a] => do let a ← hx a; pure (xh (PathClean.pathBase a))
+  | "strtofold", [a] => do let a ← hx a; pure (xh (strToFold a))
+  | "isvendoredpackage", [a, g] => do
+    let a ← hx a; let g ← parseBool g; pure (showBool (isVendoredPackage a g))
+  | "checkfiles", [fs] => do let fs ← parseFiles fs; pure (showCf (checkFilesV realEnv fs))
+  | "checkdir", [g, fs] => do
+    let g ← parseBool g; let fs ← parseFiles fs
+    pure (showCf (checkDir realEnv g (treeOfList (fs.map nodeOfFile))))
+  | "create", [m, v, fs] => do
+    let m ← hx m; let v ← hx v; let fs ← parseFiles fs
+    pure (showCreate (create realEnv m v fs))
+  | "createfromdir", [m, v, g, fs] => do
+    let m ← hx m; let v ← hx v; let g ← parseBool g; let fs ← parseFiles fs
+    pure (showCreate (createFromDir realEnv m v g (treeOfList (fs.map nodeOfFile))))
+  | "checkzip", [m, v, zs, es] => do
+    let m ← hx m; let v ← hx v; let zs ← zs.toNat?; let es ← parseEntries es
+    match checkZip realEnv m v zs es with
+    | .error _ => pure "err:badmodule"
+    | .ok cf => pure (showCf cf)
+  | "unzip", [m, v, zs, t, es] => do
+    let m ← hx m; let v ← hx v; let zs ← zs.toNat?; let t ← parseTarget t; let es ← parseEntries es
+    pure (showUnzip t (unzip realEnv tdir t m v zs es))
   | _, _ => none
 
 end ModVerif.Drv.Zip
